@@ -4,7 +4,7 @@
    of_s = Some): that the real constructors invert the real SerializationString is checked on the
    implementation by the harness (strict comparison per kind), not here. *)
 From Coq Require Import ZArith NArith Bool List.
-From PcoreV Require Import Model.Base Model.Ser Model.SerAttrs.
+From PcoreV Require Import Model.Base Model.Ser Model.SerAttrs Model.SerReent.
 Import ListNotations.
 
 Definition ts : str -> str -> str := fun _ p => p.
@@ -179,6 +179,62 @@ Definition mkacase (req : nat) (l : list (attr str)) (ds : list (decl str)) (ob 
 Definition ser_mismatches (cs : list xcase) : list N := failing (fun c => ser_check (fst c)) cs.
 Definition attrs_mismatches (cs : list xcase) : list N :=
   failing (fun c => match snd c with Some a => attrs_check a | None => true end) cs.
+
+(* ---- one Serializer object, conversions that overlap (Model/SerReent.v) ----
+   One case per scenario the harness ran on ONE serializer: the options the object was made with, the conversions
+   in the order in which Convert was entered (capabilities of the consumer, value, what that consumer observed),
+   and the observed global order of the calls: RStart i = Convert of conversion i was entered, RDeliver i = the
+   consumer of conversion i received its next event (nested from inside a consumer callback on one goroutine, or
+   on goroutines of their own ordered by channels).  Checked: every conversion satisfies ser_check as a run of its
+   own (the model's stream for it ALONE is the stream its consumer received); the observed schedule is a
+   schedule of the model (run <> None: no consumer received more events than the model delivers); at its end every
+   consumer of the model's world has received exactly what the real consumer received, and a conversion that
+   returned is finished in the model. *)
+Inductive raction := RStart (i : nat) | RDeliver (i : nat).
+Definition rconv : Type := (caps * @rvalue str * obs)%type.
+Definition rcase : Type := (opts * list rconv * list raction)%type.
+Definition RC (c : caps) (x : @rvalue str) (ob : obs) : rconv := (c, x, ob).
+Definition RCase (o : opts) (cs : list rconv) (sched : list raction) : rcase := (o, cs, sched).
+
+Definition obs_events (ob : obs) : list (@event str) := match ob with ObsOk e _ => e | ObsSerFault e => e end.
+Definition obs_returned (ob : obs) : bool := match ob with ObsOk _ _ => true | ObsSerFault _ => false end.
+
+Fixpoint start_indexes (l : list raction) : list nat :=
+  match l with
+  | [] => []
+  | RStart i :: l' => i :: start_indexes l'
+  | RDeliver _ :: l' => start_indexes l'
+  end.
+
+Fixpoint actions_of (cs : list rconv) (l : list raction) : option (list (@action str)) :=
+  match l with
+  | [] => Some []
+  | RStart i :: l' =>
+      match nth_error cs i, actions_of cs l' with
+      | Some (c, x, _), Some r => Some (Start c x :: r)
+      | _, _ => None
+      end
+  | RDeliver i :: l' => option_map (cons (Deliver i)) (actions_of cs l')
+  end.
+
+Definition reent_check (rc : rcase) : bool :=
+  let '(o, cs, sched) := rc in
+  forallb (fun c : rconv => let '(cp, x, ob) := c in ser_check (o, cp, x, ob)) cs &&
+  list_eqb Nat.eqb (start_indexes sched) (List.seq 0%nat (length cs)) &&
+  match actions_of cs sched with
+  | None => false
+  | Some acts =>
+      match run ts (world0 o) acts with
+      | None => false
+      | Some w =>
+          forallb2 (fun (cv : @conv str) (c : rconv) =>
+                      list_eqb event_eqb (cv_done cv) (obs_events (snd c)) &&
+                      (negb (obs_returned (snd c)) || finished cv))
+                   (w_convs w) cs
+      end
+  end.
+
+Definition reent_mismatches (cs : list rcase) : list N := failing reent_check cs.
 
 (* strings of the case files: printable ASCII is written as a string literal (fast to elaborate) *)
 Definition b (s : String.string) : str := bytes_of s.
